@@ -40,6 +40,9 @@ def install(B):
     reg("IntRange", lambda ip, a, k: Shape("intrange", a[0], a[1]))
     reg("Enum", lambda ip, a, k: Shape("enum", a[0]))
     reg("ClassOf", lambda ip, a, k: Shape("class", a[0]))
+    reg("Instance", lambda ip, a, k: Shape("instance", a[0], **k))
+    reg("MapOf", lambda ip, a, k: Shape("map", a[0], a[1]))
+    reg("SetOf", lambda ip, a, k: Shape("pset", a[0]))
     reg("contract", lambda ip, a, k: I.PyFn("contract-deco", lambda ip2, a2, k2: a2[0]))
     reg("lemma", lambda ip, a, k: I.PyFn("lemma-deco", lambda ip2, a2, k2: a2[0]))
 
@@ -123,6 +126,18 @@ def _split_top(s):
     return out
 
 
+def _has_shape(v):
+    if isinstance(v, Shape):
+        return True
+    if isinstance(v, Rec):
+        return any(_has_shape(x) for x in v.f.values())
+    if isinstance(v, (tuple, list)):
+        return any(_has_shape(x) for x in v)
+    if isinstance(v, dict):
+        return any(_has_shape(x) for x in v.values())
+    return False
+
+
 class Maker:
     """Builds symbolic values from shapes; remembers side constraints."""
 
@@ -142,6 +157,8 @@ class Maker:
             # a value template: instantiate the shapes found inside records / tuples, keep
             # everything else as it is
             if isinstance(sh, Rec):
+                if not _has_shape(sh):
+                    return sh
                 return Rec(sh.cls, {k: self.make(v, f"{name}.{k}", idx) for k, v in sh.f.items()}, sh.mutable)
             if isinstance(sh, tuple):
                 return tuple(self.make(v, f"{name}.{i}", idx) for i, v in enumerate(sh))
@@ -159,6 +176,16 @@ class Maker:
             v = self.const(name, "int", idx)
             self._side(z3.And(v >= sh.a[0], v <= sh.a[1]), idx)
             return Sym(v, "int")
+        if k == "map":
+            ks = sh.a[0].kind
+            vsh = sh.a[1]
+            comps = list(vsh.a) if vsh.kind == "tuple" else [vsh]
+            pres = z3.Const(name + ".has", z3.ArraySort(_z3sort(ks), z3.BoolSort()))
+            arrs = [(z3.Const(f"{name}.v{i}", z3.ArraySort(_z3sort(ks), _z3sort(c.kind))), c.kind) for i, c in enumerate(comps)]
+            return MapV(ks, pres, arrs, vsh.kind == "tuple")
+        if k == "pset":
+            ks = sh.a[0].kind
+            return PredSetV(ks, z3.Const(name + ".in", z3.ArraySort(_z3sort(ks), z3.BoolSort())))
         if k == "bytes":
             v = self.const(name + ".nbytes", "int", idx)
             self.side.append(v >= 0) if idx is None else None
@@ -189,6 +216,9 @@ class Maker:
                     fs = ann_shape(ip, cls, ann)
                 vals[fname] = self.make(fs, f"{name}.{fname}", idx)
             return Rec(cls, vals)
+        if k == "instance":
+            cls = resolve_class(ip, sh.a[0])
+            return Rec(cls, {f: self.make(s, f"{name}.{f}", idx) for f, s in sh.k.items()}, mutable=True)
         if k == "enum":
             cls = resolve_class(ip, sh.a[0])
             raise EngineError("symbolic enum member: use OneOf over the members")
@@ -306,6 +336,8 @@ def to_json(v, model, max_seq=8):
         return {"__enum__": v.cls.qualname, "name": v.name}
     if isinstance(v, ExcV):
         return {"__exc__": v.cls_name}
+    if isinstance(v, (MapV, PredSetV)):
+        return {"__repr__": "<symbolic map/set>"}
     if isinstance(v, SizedV):
         n = model.eval(v.n, model_completion=True)
         return {"__bytes__": n.as_long() if z3.is_int_value(n) else 0}
